@@ -1578,7 +1578,8 @@ class rate_limit(Stream):
         turn = self._take_turn()
         if now < old_next:
             yield gen.sleep(old_next - now)
-        yield self._leave_in_turn(turn)
+        yield self._wait_for_turn(turn)
+        self._leave(turn)
         yield self._emit(x, metadata=metadata)
         self._release_refs(metadata)
 
@@ -1588,8 +1589,8 @@ class rate_limit(Stream):
         return previous, mine
 
     @gen.coroutine
-    def _leave_in_turn(self, turn):
-        """ Leave behind the elements that arrived earlier, and not too soon after them
+    def _wait_for_turn(self, turn):
+        """ Wait for the elements that arrived earlier, and for the interval after them
 
         On a busy loop the timer of an earlier element can fire late: a later
         element must then neither overtake it nor follow it more closely than
@@ -1603,11 +1604,22 @@ class rate_limit(Stream):
                 wait = self._left + self.interval - time()
                 if wait > 0:
                     yield gen.sleep(wait)
-            self._left = time()
-        finally:
+        except BaseException:
+            self._leave(turn)
+            raise
+
+    def _leave(self, turn):
+        """ Note the departure and let the next element go
+
+        Called in the same breath as the hand-over downstream, so that the
+        spacing is counted from when the element really left.
+        """
+        previous, mine = turn
+        self._left = time()
+        if not mine.done():
             mine.set_result(None)
-            if self._turn is mine:
-                self._turn = None
+        if self._turn is mine:
+            self._turn = None
 
 
 @Stream.register_api()
